@@ -101,11 +101,18 @@ class PropertiesData(Properties):
         units = self.get_property("units", "")
         if units is None:
             isreftime = bool(self.get_property("calendar", False))
+            units = ""
         else:
-            isreftime = "since" in str(units)
+            # Units that are not a string are shown as they are
+            units = str(units)
+            isreftime = "since" in units
 
         if isreftime:
-            units += " " + self.get_property("calendar", "")
+            calendar = self.get_property("calendar", "")
+            if calendar is None:
+                calendar = ""
+
+            units += f" {calendar}"
 
         return f"{self.identity('')}{dims} {units}"
 
